@@ -138,7 +138,7 @@ def truncation(ctx, tk):
             if hi.k == "bin" and not ok:
                 ok = False
         else:
-            ok = False
+            ok = None if tm.k == "call" else False       # a delegation (e.g. a shortcut for one window size) is not decided here
         ctx.decide("C13.b", g, "sliding_window returns length - window + 1 windows", ok, "window count is %s" % (tm.a[1] if tm.k == "sub" else tm,), node=r.ast, engine="E1")
 
 
